@@ -42,52 +42,88 @@ var hfsIgnoredCodepoints = map[rune]struct{}{
 //
 // [1]: https://github.com/git/git/blob/v2.54.0/utf8.c#L741-L809
 func IsHFSDot(part, needle string) bool {
-	runes := []rune(part)
-	i := 0
-
-	// skip ignored code points, then expect '.'
-	for i < len(runes) {
-		if _, ok := hfsIgnoredCodepoints[runes[i]]; !ok {
-			break
+	// next returns the next code point that HFS+ does not ignore. Like
+	// upstream's next_hfs_char it returns 0 at the end of the string and
+	// also for malformed UTF-8, which upstream deliberately treats as the
+	// end of the component ("returning 0 is good enough").
+	rest := part
+	next := func() rune {
+		for {
+			r, size := pickOneUTF8Char(rest)
+			if size == 0 {
+				rest = ""
+				return 0
+			}
+			rest = rest[size:]
+			if _, ok := hfsIgnoredCodepoints[r]; ok {
+				continue
+			}
+			return r
 		}
-		i++
 	}
-	if i >= len(runes) || runes[i] != '.' {
+
+	if next() != '.' {
 		return false
 	}
-	i++
 
 	// match needle case-insensitively, skipping ignored code points
 	for _, expected := range needle {
-		for i < len(runes) {
-			if _, ok := hfsIgnoredCodepoints[runes[i]]; !ok {
-				break
-			}
-			i++
-		}
-		if i >= len(runes) {
-			return false
-		}
-		r := runes[i]
+		r := next()
 		if r > 127 {
 			return false
 		}
 		if unicode.ToLower(r) != expected {
 			return false
 		}
-		i++
 	}
 
-	// skip trailing ignored code points
-	for i < len(runes) {
-		if _, ok := hfsIgnoredCodepoints[runes[i]]; !ok {
-			break
+	// must be at end of component (trailing ignored code points skipped)
+	return next() == 0
+}
+
+// pickOneUTF8Char decodes the first code point of s the way upstream Git's
+// pick_one_utf8_char does. It returns size 0 at the end of the string and
+// for a malformed sequence (truncated, overlong, surrogate, U+FFFE/U+FFFF,
+// or beyond U+10FFFF).
+func pickOneUTF8Char(s string) (rune, int) {
+	at := func(i int) byte {
+		if i < len(s) {
+			return s[i]
 		}
-		i++
+		return 0
 	}
-
-	// must be at end of component
-	return i == len(runes)
+	if len(s) == 0 {
+		return 0, 0
+	}
+	s0 := s[0]
+	switch {
+	case s0 < 0x80:
+		return rune(s0), 1
+	case s0&0xe0 == 0xc0:
+		s1 := at(1)
+		if s1&0xc0 != 0x80 || s0&0xfe == 0xc0 {
+			return 0, 0
+		}
+		return rune(s0&0x1f)<<6 | rune(s1&0x3f), 2
+	case s0&0xf0 == 0xe0:
+		s1, s2 := at(1), at(2)
+		if s1&0xc0 != 0x80 || s2&0xc0 != 0x80 ||
+			(s0 == 0xe0 && s1&0xe0 == 0x80) ||
+			(s0 == 0xed && s1&0xe0 == 0xa0) ||
+			(s0 == 0xef && s1 == 0xbf && s2&0xfe == 0xbe) {
+			return 0, 0
+		}
+		return rune(s0&0x0f)<<12 | rune(s1&0x3f)<<6 | rune(s2&0x3f), 3
+	case s0&0xf8 == 0xf0:
+		s1, s2, s3 := at(1), at(2), at(3)
+		if s1&0xc0 != 0x80 || s2&0xc0 != 0x80 || s3&0xc0 != 0x80 ||
+			(s0 == 0xf0 && s1&0xf0 == 0x80) ||
+			(s0 == 0xf4 && s1 > 0x8f) || s0 > 0xf4 {
+			return 0, 0
+		}
+		return rune(s0&0x07)<<18 | rune(s1&0x3f)<<12 | rune(s2&0x3f)<<6 | rune(s3&0x3f), 4
+	}
+	return 0, 0
 }
 
 // IsHFSDotGit reports whether part is an HFS+ equivalent of ".git".
